@@ -88,6 +88,10 @@ def oracle(case: dict, real: list[str]) -> str | None:
     must = True
     if case["path"] == "tlswrap":
         must = outcome != "ok"
+    alive = _field(real, "inner-while-alive")
+    if alive and alive != "t=1":
+        return (f"{case['path']}: only the close call was cancelled (scope around client.aclose(), at {_field(real, 'at') or '-'}, "
+                f"outcome {outcome}); the connection task lives on and the wrapped transport is still open")
     if must:
         flags = dict(x.split("=") for x in _field(real, "inner-later").split())
         open_ = [n for n, v in flags.items() if v != "1"]
@@ -120,6 +124,8 @@ def nontrivial(case: dict, real: list[str]) -> str | None:
         feats.append("timeout")
     if p.get("busy"):
         feats.append("busy")
+    if p.get("via"):
+        feats.append("via-" + p["via"])
     if not feats:
         return None
     return case["path"] + "/" + "+".join(feats)
@@ -145,7 +151,8 @@ def known_key(case: dict, real: list[str], why: str) -> str:
     at = _field(real, "at").split(".")[-1] or "-"
     if at in ("__aenter__", "acquire") and p.get("busy"):
         at = "send-lock"
-    return f"path={case['path']},busy={int(bool(p.get('busy')))},at={at}"
+    via = ",via=scope" if p.get("via") == "scope" else ""
+    return f"path={case['path']},busy={int(bool(p.get('busy')))},at={at}{via}"
 
 
 # ------------------------------------------------------------------------------------------------------------
@@ -252,6 +259,8 @@ def configurations(tier: str) -> list[tuple[str, dict]]:
         cfgs.append(("tcpclient", {"inner": a, "busy": True}))
         cfgs.append(("srvclient", {"inner": a}))
         cfgs.append(("srvclient", {"inner": a, "busy": True}))
+        cfgs.append(("srvclient", {"inner": a, "via": "scope"}))
+        cfgs.append(("srvclient", {"inner": a, "busy": True, "via": "scope"}))
     for a in iv:
         for peer in ("reply", "silent", "first", "drop"):
             cfgs.append(("tls", {"sc": True, "peer": peer, "inner": a, "shutdown_timeout": 5}))
